@@ -13,7 +13,7 @@ PROP = 'C07'
 
 
 def Cases(tier):
-  n = int(os.environ.get('VERIF_N', 0)) or (110 if tier == 'quick' else 2500)
+  n = int(os.environ.get('VERIF_N', 0)) or (110 if tier == 'quick' else 1200)
   nvar = 4 if tier == 'quick' else 8
   rng = common.Rng('c07')
   cases = []
